@@ -243,6 +243,7 @@ func init() {
 			r.Analysed = len(fns)
 			for _, fn := range fns {
 				n := 0
+				before := len(r.Obligations)
 				eachCall(fn, func(ci ssa.CallInstruction) {
 					call, ok := ci.(*ssa.Call)
 					if !ok {
@@ -322,6 +323,10 @@ func init() {
 					}
 					n++
 				})
+				// a lookup helper shared by k call sites stands for k lookups
+				if k := staticCallSites(p, fn); k > 1 {
+					r.Shared += (k - 1) * (len(r.Obligations) - before)
+				}
 			}
 			return nil
 		},
